@@ -236,3 +236,58 @@ const (
 )
 
 var _ = strings.HasPrefix
+
+// --- regexp (contract stub, DESIGN §2.5) --------------------------------------------------
+// MustCompile returns an opaque handle; MatchString is an uninterpreted predicate of
+// (handle, string): equal strings give equal answers on one path.
+
+type regexHandle struct {
+	pattern value
+	memo    map[string]value
+}
+
+func init() {
+	externals["regexp.MustCompile"] = func(fr *frame, a []value) value {
+		h := &hostObj{name: "regexp", methods: map[string]func(fr *frame, args []value) value{}}
+		var cell value = structure{h}
+		fr.i.regexes[&cell] = &regexHandle{pattern: a[0], memo: map[string]value{}}
+		return &cell
+	}
+	externals["regexp.Compile"] = func(fr *frame, a []value) value {
+		return tuple{externals["regexp.MustCompile"](fr, a), iface{}}
+	}
+	externals["(*regexp.Regexp).MatchString"] = func(fr *frame, a []value) value {
+		p := a[0].(*value)
+		h := fr.i.regexes[p]
+		if h == nil {
+			fr.i.ctx.end("UNSUPPORTED", "regexp not created through the MustCompile stub")
+		}
+		key := strKeyOf(a[1])
+		if v, ok := h.memo[key]; ok {
+			return v
+		}
+		v := fr.i.ctx.FreshInternal("rematch", types.Bool)
+		h.memo[key] = v
+		return v
+	}
+}
+
+// strKeyOf renders a string value so that two renderings are equal iff the strings are
+// syntactically the same (same concrete bytes and same symbolic terms).
+func strKeyOf(v value) string {
+	var sb strings.Builder
+	for _, b := range strBytes(v) {
+		switch b := b.(type) {
+		case byte:
+			sb.WriteByte('c')
+			sb.WriteString(string(rune('0' + b/100)))
+			sb.WriteString(string(rune('0' + b/10%10)))
+			sb.WriteString(string(rune('0' + b%10)))
+		case *Sym:
+			sb.WriteByte('t')
+			sb.WriteString(sym.Ref(b.T))
+		}
+		sb.WriteByte(',')
+	}
+	return sb.String()
+}
